@@ -22,6 +22,48 @@ CHECKS = {
  "C18": entry(
    "Theorems: for every reachable memo state and query history the Canonical flag equals the pure function of the reference sequence (declaratively: every intron has a dinucleotide pair of the strand's generated table); StrandDetector memo purity; strand vote / clean strand / read strand / novel-model strand characterised and shown never to contradict all evidence; tied to the real IOSupport, StrandDetector, get_assignment_strand and construct_fl_isoforms by correspondence and to pipeline outputs by recomputation from the FASTA.",
    COMMON_NOTE + "See docs/C18.md.", "§7 C18, docs/C18.md"),
+ "C02": entry(
+   "Theorems over all call histories and all strategies: every dumped gene/transcript/model count is the sum of the documented per-read weights (regenerated weight functions and strategy flags) if the feature is confirmed and 0 otherwise; a record contributes at most 1; a uniquely assigned spliced read is never zeroed; the statistics lines equal the class counts; per-chromosome merge sums; TPM tables are one positive rescaling summing to 10^6. Tied to the real counters, merge and TPM code by correspondence on dumped files and to pipeline outputs by an independent recount.",
+   COMMON_NOTE + "Known finding multilocus_tie_weight (a read retained on >= 2 loci weighs 1 per record). See docs/C02.md.", "§7 C02, docs/C02.md"),
+ "C03": entry(
+   "Theorems over all dump-call histories: printed transcripts pass the coordinate gate, exon/transcript records are exactly the model's, gene and transcript lines appear once, reference transcripts are printed verbatim, extended = reference + novel, novel exon constructors (get_exons, end correction, mono-exon) yield well-formed exon lists, natural merge order is a total function of the file-name set and merging preserves records; gene-contains-all-transcripts is proved for genes dumped in one call with a witness otherwise. Tied to the real GFFPrinter and constructors by correspondence and to pipeline GTFs by a validator.",
+   COMMON_NOTE + "Known finding gene_range_across_calls; assumption interface (monotone intron paths, one strand per gene, distinct ids) monitored by the oracle. See docs/C03.md.", "§7 C03, docs/C03.md"),
+ "C05": entry(
+   "Theorems for all alignment streams: clusters partition the input; coverage-valley splitting terminates and its sub-regions tile the region exactly; every alignment is forwarded for at least one sub-region in BAM mode and the in-memory storage returns exactly the overlap filter (so both memory modes agree); statistics equal per-category counts; a record processed in two regions never survives as identical twins. Tied to the real collector/storages/splitter by correspondence and to pipeline outputs (both memory modes) by read-id multisets.",
+   COMMON_NOTE + "pysam fetch semantics assumed and re-checked each run. See docs/C05.md.", "§7 C05, docs/C05.md"),
+ "C06": entry(
+   "Theorems: pool.map returns in submission order and the merged output is independent of the task->worker assignment, completion order, worker count and initial worker state for every schedule (given per-task output independent of worker state, discharged per component of the regenerated shared-state inventory by decide); each modelled set-iteration site is permutation independent; the natural merge order is total; both memory modes hand the resolver identical lists. Tied to the pipeline by a byte-level matrix over threads x hash seeds x memory mode x keep_tmp x repetition.",
+   COMMON_NOTE + "The regenerated inventories (shared state, set-iteration sites) are heuristic AST scans; the pipeline matrix is the backstop. See docs/C06.md.", "§7 C06, docs/C06.md"),
+ "C07": entry(
+   "Theorem resume_correct over a model of the file-system protocol: for every configuration (any number of chromosomes, read groups, keep_tmp, annotation) and every kill point after .params is saved, the resumed run completes and the final files equal those of an uninterrupted run (also after repeated interruptions); invariant: every existing lock vouches only for complete files. Tied to the real pipeline by FS-mutation traces and by kill->resume verdicts at sampled (quick) or all (thorough) kill points.",
+   COMMON_NOTE + "Theorems cover the --threads 1 event order; pool interleavings by per-chromosome trace projection and sampled kill points. See docs/C07.md.", "§7 C07, docs/C07.md"),
+ "C08": entry(
+   "Theorems for all record lists: the resolver never raises, retains exactly the winners of the documented priority class, suspends all losers in both type fields, flags ties ambiguous, keeps the first of __eq__ duplicates, and the retained set is invariant under every permutation of records / chromosomes / files (List.Perm) and between the two memory-mode paths; suspended records reach no consumer and the intron graph ignores multimappers (regenerated guard tables). Tied to the real resolver/loader by exhaustive small and random correspondence and to the pipeline by synthetic multi-mapping BAMs.",
+   COMMON_NOTE + "Known finding multilocus_tie_weight (read-level total > 1), with exact boundary theorem. See docs/C08.md.", "§7 C08, docs/C08.md"),
+ "C09": entry(
+   "Theorems for all call streams and all set-iteration orders: each read is counted under exactly the documented group (NA when none; no abort), per-group counts sum to the ungrouped count, matrix and linear renderings contain identical (feature, group, value) triples, group universe facts, table round trip, exon/intron grouped tables partition. Tied to the real groupers/counters under several PYTHONHASHSEED values and to pipeline runs over all grouping modes and formats.",
+   COMMON_NOTE + "See docs/C09.md.", "§7 C09, docs/C09.md"),
+ "C10": entry(
+   "Theorem sample_independent: for every history of experiments and every execution (threads 1 or any pool schedule) the outputs of an experiment equal those of processing it alone, via a per-component lemma for every item of the regenerated inventories of state surviving between experiments (closed by decide, so new shared state re-opens the obligation); combined tables contain exactly the per-experiment columns. Tied to the pipeline by joint vs stand-alone byte comparison over orders and thread counts.",
+   COMMON_NOTE + "Known finding read_group_auto_from_other_experiment. See docs/C10.md.", "§7 C10, docs/C10.md"),
+ "C12": entry(
+   "Partial by nature: theorems carry the BAM-partition clause (k-way merge is a permutation sorted by start, region clusters and per-region record multisets are invariant under any partition of the records into files) and the cache clause (a lookup succeeds only for the same path with matching mtimes and flag, for all histories); the format-equivalence clause (.gtf/.gtf.gz/.db, --complete_genedb) is exercised by differential pipeline runs only (search).",
+   COMMON_NOTE + "Downstream dependence on the record multiset only is a hypothesis carried by C08/C02 and watched by the pipeline oracle. See docs/C12.md.", "§7 C12, docs/C12.md"),
+ "C13": entry(
+   "Theorems: include/exclude counts are folds counting reads whose profile is +1/-1 at the feature, for all histories and groups (grouped partition, one row per annotated feature); soundness of +1 (a read feature matches within delta) for all inputs and of -1, and the iff characterisations under the explicit decidable hypothesis on feature lengths/gaps with witnesses for the excluded corner. Tied to the real counters/profiles by correspondence and to pipeline tables by a recount from BAM + GTF.",
+   COMMON_NOTE + "Known finding tie_loser_exon. See docs/C13.md.", "§7 C13, docs/C13.md"),
+ "C14": entry(
+   "Theorems for ALL event lists (the junction comparator is quantified over): a BED12 record is valid iff the exon list is sorted, disjoint, well formed and inside the chromosome; the corrector's output is always such a list; strategy none is the identity; read ends change only in the terminal branches enabled by the strategy; every output splice site is the read's own, the best-matching annotated site within delta, or belongs to an intron of the assigned isoform; process_events terminates. Tied to the real ExonCorrector/BEDPrinter by correspondence and to pipeline BEDs for all strategies.",
+   COMMON_NOTE + "IlluminaExonCorrector is search only. See docs/C14.md.", "§7 C14, docs/C14.md"),
+ "C15": entry(
+   "Theorems for every value in the representable domain (exact encodable-iff characterisations): every primitive and object (events, matches, read assignments, compact records, gene header) round-trips through the byte format, the abridged reader consumes exactly the same bytes as the full reader and returns the projection, streams of gene-info and assignment records round-trip, terminators are unambiguous, penalties are idempotent. Tied byte-for-byte to the real serialisers and both real loaders; the reuse clause (--read_assignments) is exercised by a pipeline pair (search).",
+   COMMON_NOTE + "See docs/C15.md.", "§7 C15, docs/C15.md"),
+ "C16": entry(
+   "Theorems for every CIGAR over all nine operation kinds (unbounded): the exon blocks equal a loop-free SAM specification (maximal runs between N/S containing an aligned base), are sorted and well formed, read-coordinate blocks are consistent with the query; polyA/polyT exon trimming never empties or disorders the exon list and moves the tail position onto the retained exon, for every exon list and position quadruple. Tied to get_read_blocks, AlignmentInfo and pysam by exhaustive short and random long CIGARs.",
+   COMMON_NOTE + "See docs/C16.md.", "§7 C16, docs/C16.md"),
+ "C20": entry(
+   "Theorems over an interleaving model of the per-user JSON cache protocol, for any number of processes and every merge of their step lists: with the (repaired) atomic store / tolerant load no load ever sees a partial file, nobody crashes and every run finishes, and a successful lookup returns only an artefact stored for the same key with matching mtimes and flags; the pre-fix protocol's two failure modes are kept as decide-checked witnesses. Tied to the real load/store functions by a step-token scheduler and to real concurrent isoquant.py processes.",
+   COMMON_NOTE + "json and os.replace atomicity are assumed externals (laws checked at run time). See docs/C20.md.", "§7 C20, docs/C20.md"),
 }
 
 NOT_APPLICABLE = {}
